@@ -1,7 +1,7 @@
 """C07 - a search expression unfolds to exactly the typed searches its syntax denotes"""
 from ..rules import config, exc, search, memo, vocab, mutation, sidops
 
-DECIDES = ("the error contract (only SpilException escapes unfold_search, R-EXC over the five unfolders); unfolder precedence and chaining (R-PIPE); de-duplication then removal of untyped / unapplied-query Sids on every path (R-FILTER), never while iterating the same list (R-ITERMUT); the or-sign is looked for in path and query (R-ORSCOPE); '/**' stands for zero or more levels, completed against the configured leaf key, once (R-EXPAND); leaf / narrowing / alias decisions read the configured tables (R-TBL); the memo key covers both flags (R-KEY). Also: simple_typing returns every matching type, early returns only for an untypable root (R-ALLTYPES); the cached typing lists are never mutated (R-MUT); the query text is decoded as a whole (R-QUERYROUTE). leaf_keys has an entry for every basetype a root can have, and it is the last key of the deepest template below that root (R-LEAFKEYS); an alias is accepted wherever all its members are (R-ALIASVALUE).")
+DECIDES = ("the error contract (only SpilException escapes unfold_search, R-EXC over the five unfolders); unfolder precedence and chaining (R-PIPE); de-duplication then removal of untyped / unapplied-query Sids on every path (R-FILTER), never while iterating the same list (R-ITERMUT); the or-sign is looked for in path and query (R-ORSCOPE); '/**' stands for zero or more levels, completed against the configured leaf key, once (R-EXPAND); leaf / narrowing / alias decisions read the configured tables (R-TBL); the memo key covers both flags (R-KEY). Also: simple_typing returns every matching type, early returns only for an untypable root (R-ALLTYPES); the cached typing lists are never mutated (R-MUT); the query text is decoded as a whole (R-QUERYROUTE). leaf_keys has an entry for every basetype a root can have, and it is the last key of the deepest template below that root (R-LEAFKEYS); an alias is accepted wherever all its members are (R-ALIASVALUE). Every placeholder expression of the sid templates accepts the search symbols '*' and '>' (R-SEARCHSYM).")
 DOES_NOT_DECIDE = "the denotation itself: which types, how many '*', which narrowing values (resolver evaluation)"
 
 
@@ -22,4 +22,5 @@ def rules(ctx, tier):
         lambda: search.rule_narrow(ctx),
         lambda: config.rule_leafkeys(ctx),
         lambda: config.rule_aliasvalue(ctx),
+        lambda: config.rule_searchsym(ctx),
     ]
